@@ -91,6 +91,19 @@ let eval (toks : ostring list) : ostring =
     let j = zz (i32 j) in
     let m = ZA.sub j (ZA.mul (ZA.fdiv j (ZA.of_int 7)) (ZA.of_int 7)) in ZA.to_string (ZA.succ m)
   | ["convert"; c1; j; c2] -> let _ = ccal_of c1 in let c2 = ccal_of c2 in date_s (date_of c2 (i32 j))
+  | ["date_q"; c; j] ->
+    (* observers of the date of day j; the two renderings go through the hand model of Display (Hand/Text.v)
+       applied to the SPECIFICATION's date, so nothing here is regenerated from the code *)
+    let c = ccal_of c in
+    let j = i32 j in
+    let d = date_of c j in
+    let jz = zz j in
+    let wd = ZA.succ (ZA.sub jz (ZA.mul (ZA.fdiv jz (ZA.of_int 7)) (ZA.of_int 7))) in
+    let old = is_old c j in
+    Printf.sprintf "weekday=%s;is_julian=%s;is_gregorian=%s;ordinal0=%s;day_ordinal0=%s;show=%s;showalt=%s"
+      (ZA.to_string wd) (bool_s old) (bool_s (not old))
+      (ZA.to_string (ZA.pred (zz (ordinal_of c j)))) (ZA.to_string (ZA.pred (zz (day_ordinal_of c j))))
+      (Hand_text.hex_codes (run (show_date d))) (Hand_text.hex_codes (run (show_date_alt d)))
   | ["month_q"; n] | ["weekday_q"; n] ->
     let names = if List.hd toks = "month_q" then month_names_spec else weekday_names_spec in
     (match enum_q_spec names (u32 n) with
